@@ -118,10 +118,11 @@ def _scenario(rng):
                     masked=rng.random() < 0.8,
                     ops=[rng.choice(['evalexpr', 'evalname', 'reorder', 'binop', 'slice_dim', 'copy', 'mask', 'apply'])
                          for _ in range(rng.randint(1, 3))])
+    ops = [rng.choice(['slice_t', 'slice_l', 'apply_l', 'copy', 'subset']) for _ in range(rng.randint(1, 3))]
+    if rng.random() < 0.3:
+        ops[-1] = 'removesingleton'      # last only: what it returns for a one-layer file is no IOAPI file any more
     return dict(family='scenario', kind=k, nt=rng.randint(1, 3), nz=rng.randint(1, 2), ny=rng.randint(1, 3), nx=rng.randint(1, 3),
-                how=rng.choice(['from_arrays', 'from_arrays', 'handbuilt']), nvars=rng.randint(1, 2),
-                ops=[rng.choice(['slice_t', 'slice_l', 'apply_l', 'removesingleton', 'copy', 'subset'])
-                     for _ in range(rng.randint(1, 3))])
+                how=rng.choice(['from_arrays', 'from_arrays', 'handbuilt']), nvars=rng.randint(1, 2), ops=ops)
 
 
 def _impl_scenario(c):
